@@ -450,12 +450,30 @@ class World:
             # things, by design): not generated
             return
         elif op == 'provider':
-            self.cprov[c] = (list(ifs), list(ifs))
-            ctx.op(op, c.__name__, nm(ifs))
-            if rng.random() < 0.5:
-                provider(*ifs)(c)
+            r_ = rng.random()
+            pm, py = self.cprov.get(c, ([], []))
+            if r_ < 0.25 and ifs:
+                # the class itself provides something more (what it provided before stays)
+                self.cprov[c] = (list(pm) + [i for i in ifs if i not in pm], list(py) + [i for i in ifs if i not in py])
+                ctx.op('class-alsoProvides', c.__name__, nm(ifs))
+                alsoProvides(c, *ifs)
+                ctx.count('class_level_alsoProvides')
+            elif r_ < 0.4 and ifs:
+                i = ifs[0]
+                self.cprov[c] = ([p_ for p_ in pm if not (p_ is i or p_.extends(i))], [p_ for p_ in py if not (p_ is i or p_.extends(i))])
+                ctx.op('class-noLongerProvides', c.__name__, nm(i))
+                try:
+                    noLongerProvides(c, i)
+                except ValueError:
+                    pass          # (implied by what the metaclass implements: nothing to remove)
+                ctx.count('class_level_noLongerProvides')
             else:
-                directlyProvides(c, *ifs)
+                self.cprov[c] = (list(ifs), list(ifs))
+                ctx.op(op, c.__name__, nm(ifs))
+                if r_ < 0.7:
+                    provider(*ifs)(c)
+                else:
+                    directlyProvides(c, *ifs)
         elif op == 'dp':
             self.declare_obj(o, ifs)
             ctx.op(op, o.zname, nm(ifs))
